@@ -18,6 +18,11 @@ NestAmp    == {<<"b">>, <<"&", "-x">>}
 NestList   == {<<"b">>, <<"b", ",", "c">>, <<"&", ":hover">>}
 RootPlain  == {<<"c">>}
 RootAmp    == {<<"c">>, <<"c", "sp", "&">>}
+(* selector lists: parent lists of 1-2 selectors, @at-root lists of 2 members with / without & per member *)
+TopList    == {<<"a">>, <<"a", ",", ".c">>}
+NestLists  == {<<"b">>, <<"b", ",", "e">>}
+RootList   == {<<"c", ",", "d">>, <<"c", ",", "d", "sp", "&">>, <<"d", "sp", "&", ",", "c">>,
+               <<"c", "sp", "&", ",", "&", "-x">>, <<"c", ",", "&", ">", "d">>}
 
 VARIABLES prog, open, nodes, ndecl, phase
 vars == <<prog, open, nodes, ndecl, phase>>
